@@ -661,6 +661,65 @@ fn c04_timeline(k: usize, threads_form: bool) {
   e::cover("c04-path-complete");
 }
 
+/// C04 + C06: both inputs are Subjects, and the subscriber's first callback (whatever it is) subscribes a listener to
+/// one of them from inside the delivery. The combinator's output must still follow the timeline oracle, and the
+/// listener sees exactly the later events of that Subject.
+fn c04_subject_inputs(k: usize, threads_form: bool) {
+  use crate::h_subject::SubObs;
+  let op = OPS2[e::choose(OPS2.len() as u32) as usize];
+  let lside = e::choose(2) as usize;
+  let tl = draw_timeline(k);
+  e::note(format!("{:?}{} over two Subjects [{}] ; the first callback subscribes a listener to input {}", op, if threads_form { "_threads" } else { "" }, show_timeline(&tl), if lside == 0 { "a" } else { "b" }));
+  let probe = fresh_probe();
+  let listener = fresh_probe();
+  world::set_counter(7, 0);
+  // keep the subscriptions alive for the whole run
+  let mut keep: Vec<Box<dyn std::any::Any>> = vec![];
+  if threads_form {
+    let o = cat::build2_t(op, cat::hot_kind_t(100, 1), cat::hot_kind_t(101, 1));
+    let sj = cat::SUBJECTS_T.with(|h| h.borrow().iter().find(|(t, _)| *t == 100 + lside).map(|(_, s)| s.clone())).unwrap();
+    let n = move || {
+      world::set_counter(7, 1);
+      std::mem::forget(sj.actual_subscribe(listener));
+    };
+    keep.push(Box::new(o.actual_subscribe(SubObs { probe, nested: Some(n) })));
+  } else {
+    let o = cat::build2(op, cat::hot_kind(100, 1), cat::hot_kind(101, 1));
+    let sj = cat::SUBJECTS.with(|h| h.borrow().iter().find(|(t, _)| *t == 100 + lside).map(|(_, s)| s.clone())).unwrap();
+    let n = move || {
+      world::set_counter(7, 1);
+      std::mem::forget(sj.actual_subscribe(listener));
+    };
+    keep.push(Box::new(o.actual_subscribe(SubObs { probe, nested: Some(n) })));
+  }
+  let mut want_l: Vec<Ev> = vec![];
+  let mut side_done = [false, false];
+  let mut joined = false;
+  for (side, ev) in &tl {
+    let delivered = if threads_form { cat::feed_hot_t(100 + side, ev) } else { cat::feed_hot(100 + side, ev) };
+    if joined && *side == lside && !side_done[lside] {
+      want_l.push(ev.clone());
+    }
+    if delivered && !matches!(ev, Ev::Next(_)) {
+      side_done[*side] = true;
+    }
+    // joined during this event: does not see it, sees the later ones
+    if !joined && world::counter(7) == 1 {
+      joined = true;
+    }
+  }
+  verify2(op, &tl, &probe.events(), if threads_form { "_threads/subject-inputs" } else { "/subject-inputs" });
+  let got = listener.events();
+  let key = format!("listener-log/{:?}{}", op, if threads_form { "_threads" } else { "" });
+  let detail = || format!("timeline [{}] ; listener on input {} got [{}] expected [{}]", show_timeline(&tl), lside, model::show_events(&got), model::show_events(&want_l));
+  match model::compare_events(&got, &want_l) {
+    Ok(t) => e::check(t, &key, detail),
+    Err(why) => e::fail(&key, || format!("{} ; {}", why, detail())),
+  }
+  std::mem::forget(keep);
+  e::cover("c04-subject-inputs-path-complete");
+}
+
 /// C18: same script into the local and the thread-safe form, logs compared item by item.
 fn c18_binary(k: usize) {
   let op = OPS2[e::choose(OPS2.len() as u32) as usize];
@@ -761,6 +820,12 @@ pub fn harnesses() -> Vec<HarnessDef> {
   add("c04_timeline", vec!["C04"], "merge, zip, combine_latest, with_latest_from, take_until, skip_until, sample, buffer(notifier): every merged timeline of two hot inputs vs the timeline oracle",
     |t| format!("{} events (side x kind), symbolic values", if t { 6 } else { 5 }),
     Box::new(|t| c04_timeline(if t { 6 } else { 5 }, false)), 3_000_000, 40_000_000, false);
+  add("c04_subject_inputs", vec!["C04", "C06"], "two-input combinators over two Subjects whose subscriber subscribes a listener to one input from inside its first callback: timeline oracle for the output, later-events oracle for the listener",
+    |t| format!("timelines of {} events over 2 Subject inputs; listener on either input", if t { 6 } else { 5 }),
+    Box::new(|t| c04_subject_inputs(if t { 6 } else { 5 }, false)), 3_000_000, 40_000_000, false);
+  add("c04_subject_inputs_threads", vec!["C04", "C06"], "same for the _threads forms (a re-acquired MutArc lock = would block forever)",
+    |t| format!("timelines of {} events over 2 Subject inputs; listener on either input", if t { 6 } else { 5 }),
+    Box::new(|t| c04_subject_inputs(if t { 6 } else { 5 }, true)), 3_000_000, 40_000_000, false);
   add("c04_timeline_threads", vec!["C04"], "the _threads forms of the two-input combinators vs the same oracle",
     |t| format!("{} events", if t { 6 } else { 4 }),
     Box::new(|t| c04_timeline(if t { 6 } else { 4 }, true)), 3_000_000, 40_000_000, false);
